@@ -38,6 +38,10 @@ def api_obs(tag, chk, ops=None, checks="none", tier="quick"):
     add("ADDTSEC", "SECT", 3, extra=("NEWTITLE='B'",))
     add("ADDTSEC", "SECT", 3, extra=("NEWTITLE='C'",))
     add("ADDTSEC", "SECM", 1)
+    # wrong type: a titled-section add on a scalar / list option (the title text would convert as a value)
+    add("ADDTSEC", "INT", 1, extra=("NEWTITLE='5'",))
+    add("ADDTSEC", "STR", 1, extra=("NEWTITLE='5'",))
+    add("ADDTSEC", "INTLIST", 2, extra=("NEWTITLE='5'",))
     for kind in ("SECT", "SECM"):
         for nv in (0, 1, 3):
             add("RMNSEC", kind, nv)
